@@ -118,6 +118,7 @@ class Run:
         self.n_solver = 0
         self.t_solver = 0.0
         self.held_locks = []
+        self.inj_seen = set()
         self.ghost_sums = {}
         self.elem_index = {}   # list sym -> [(index term, element object name)] for alias resolution of symbolic indices
         self.members = {}      # oid of an object -> oids of counter-tracked symbolic lists it was appended to
